@@ -497,14 +497,16 @@ def lean_ty(t):
     if t == "Ordering":
         return "Ordering"
     if isinstance(t, tuple) and t[0] == "Result":
-        return f"(Except Rt.DecimalError {lean_ty(t[1])})"
+        et = t[2] if len(t) > 2 and t[2] in ("DecimalError", "TryFromDecimalError") else "DecimalError"
+        return f"(Except Rt.{et} {lean_ty(t[1])})"
     if isinstance(t, tuple) and t[0] == "Sum":
         return f"(Sum {lean_ty(t[1])} {lean_ty(t[2])})"
     raise Unsupported(f"type {t}")
 
 
 ERR_NAMES = {"MaxNFracDigitsExceeded": "maxNFracDigitsExceeded", "InternalOverflow": "internalOverflow",
-             "InfiniteValue": "infiniteValue", "NotANumber": "notANumber", "DivisionByZero": "divisionByZero"}
+             "InfiniteValue": "infiniteValue", "NotANumber": "notANumber", "DivisionByZero": "divisionByZero",
+             "NotAnIntValue": "notAnIntValue", "ValueOutOfRange": "valueOutOfRange"}
 # methods of `Decimal` that kernels call; they are modelled by hand: name -> (result type, Lean head, monadic?)
 DEC_METHODS = {"eq_zero": ("bool", "Model.eqZero", False), "eq_one": ("bool", "Model.eqOne", True),
                "is_negative": ("bool", "Model.isNegative", False), "is_positive": ("bool", "Model.isPositive", False),
@@ -520,6 +522,7 @@ class Emit:
     def __init__(self, fname, params, ret, sigs, consts, self_ty=None):
         self.fname, self.ret, self.sigs, self.consts = fname, ret, sigs, dict(consts)
         self.env = {}
+        self.self_ty = self_ty
         for n, t in params:
             self.env[n] = self_ty if t == "Self" else t
         self.tmp = 0
@@ -642,8 +645,14 @@ class Emit:
                 return ("Option", self.type_of(e[2][0]))
             if n in ("Ok", "Err"):
                 return hint
+            if n == "try_from" and len(e[1]) == 2:
+                target = e[1][0] if e[1][0] != "Self" else self.self_ty
+                st = self.type_of(e[2][0])
+                return ("Result", target, "TryFromDecimalError" if st == "Decimal" else "()")
             if n == "from" and len(e[1]) == 2 and e[1][0] in INT_TYPES:
                 return e[1][0]
+            if n == "from" and len(e[1]) == 2 and e[1][0] in ("Self", "Decimal"):
+                return "Decimal"
             if len(e[1]) == 2 and e[1][0] in INT_TYPES and re.match(r"checked_", n):
                 return ("Option", e[1][0])
             if n in MUT_PARAMS and (n in self.sigs or n in EXTERNAL):
@@ -1010,6 +1019,24 @@ class Emit:
         if n == "Some":
             ls, x = self.ex(args[0], hint[1] if isinstance(hint, tuple) else None)
             return ls, f"(some {x})"
+        if n == "try_from" and len(path) == 2 and (path[0] in INT_TYPES or path[0] == "Self"):
+            target = path[0] if path[0] != "Self" else self.self_ty
+            st = self.type_of(args[0])
+            ls, x = self.ex(args[0], st)
+            if st == "Decimal" and target == "i128":
+                v = self.fresh()
+                return ls + [f"let {v} ← K.i128_try_from_decimal prof ({x})"], v
+            if st == "u128" and target == "i128":
+                return ls, f"(if ((({x}) : Nat) : Int) ≤ I128_MAX then (Except.ok ((({x}) : Nat) : Int) : Except Unit Int) else Except.error ())"
+            if isinstance(st, str) and st in INT_TYPES and signed(st) and signed(target):
+                # integer narrowing: `Ok` iff the value is in the target's range
+                return ls, f"(if IntTy.{target}.fits ({x}) = true then (Except.ok ({x}) : Except Unit Int) else Except.error ())"
+            raise Unsupported(f"try_from {st} -> {target}")
+        if n == "from" and len(path) == 2 and path[0] in ("Self", "Decimal") and self.self_ty == "Decimal":
+            st = self.type_of(args[0])
+            ls, x = self.ex(args[0], st)
+            v = self.fresh()
+            return ls + [f"let {v} ← K.decimal_from_int prof ({x})"], v
         if n == "from" and len(path) == 2 and path[0] in INT_TYPES:
             st = self.type_of(args[0])
             ls, x = self.ex(args[0], st)
@@ -1024,7 +1051,10 @@ class Emit:
         if n == "Err":
             a = args[0]
             if a[0] == "path" and a[1][-1] in ERR_NAMES:
-                return [], f"(Except.error Rt.DecimalError.{ERR_NAMES[a[1][-1]]})"
+                et = a[1][0] if len(a[1]) > 1 and a[1][0] in ("DecimalError", "TryFromDecimalError") else "DecimalError"
+                return [], f"(Except.error Rt.{et}.{ERR_NAMES[a[1][-1]]})"
+            if a[0] == "path" and len(a[1]) == 1 and a[1][0] in self.env:
+                return [], f"(Except.error {a[1][0]})"
             raise Unsupported("Err of a computed value")
         if n not in self.sigs and n not in EXTERNAL:
             raise Unsupported(f"call {n}")
@@ -1414,7 +1444,9 @@ class Emit:
             if n == "Ok":
                 return f".ok {self.pat_lean(p[2], t[1])}"
             if n == "Err":
-                return ".error _" if p[2] is None or p[2][0] in ("pwild", "pvar") else f".error {self.pat_lean(p[2], t[2])}"
+                if p[2] is not None and p[2][0] == "pvar":
+                    return f".error {p[2][1]}"
+                return ".error _" if p[2] is None or p[2][0] == "pwild" else f".error {self.pat_lean(p[2], t[2])}"
             if n in MODE_NAMES:
                 return MODE_NAMES[n]
             if n in ("Less", "Equal", "Greater"):
@@ -1428,7 +1460,8 @@ class Emit:
             for x, tt in zip(p[1], t[1]):
                 self.bind_pat(x, tt)
         elif p[0] == "pctor" and p[2] is not None and p[1][-1] == "Err":
-            pass
+            if p[2][0] == "pvar":
+                self.env[p[2][1]] = "error"
         elif p[0] == "pctor" and p[2] is not None:
             self.bind_pat(p[2], t[1])
 
@@ -1451,7 +1484,7 @@ class Emit:
 
 # ----------------------------------------------------------------------------- driver
 GROUP_IMPORTS = {"KPow": ["Fpdec.Gen.Consts"], "KDivRounded": ["Fpdec.Gen.KRound", "Fpdec.Gen.KPow", "Fpdec.Model.Core"],
-                 "KDecDiv": ["Fpdec.Gen.KDivRounded"], "KDecMul": ["Fpdec.Gen.KDivRounded", "Fpdec.Model.Decimal"], "KNorm": [], "KCmp": ["Fpdec.Gen.KPow", "Fpdec.Model.Decimal"], "KAddSub": ["Fpdec.Gen.KPow", "Fpdec.Model.Decimal"], "KDecUnops": ["Fpdec.Gen.KUnops", "Fpdec.Gen.KPow", "Fpdec.Model.Decimal"], "KDecOps": ["Fpdec.Gen.KDecDiv", "Fpdec.Gen.KDecMul", "Fpdec.Gen.KNorm", "Fpdec.Gen.Consts", "Fpdec.Model.Decimal"],
+                 "KDecDiv": ["Fpdec.Gen.KDivRounded"], "KDecMul": ["Fpdec.Gen.KDivRounded", "Fpdec.Model.Decimal"], "KNorm": [], "KIntConv": ["Fpdec.Gen.KPow", "Fpdec.Model.Decimal"], "KCmp": ["Fpdec.Gen.KPow", "Fpdec.Model.Decimal"], "KAddSub": ["Fpdec.Gen.KPow", "Fpdec.Model.Decimal"], "KDecUnops": ["Fpdec.Gen.KUnops", "Fpdec.Gen.KPow", "Fpdec.Model.Decimal"], "KDecOps": ["Fpdec.Gen.KDecDiv", "Fpdec.Gen.KDecMul", "Fpdec.Gen.KNorm", "Fpdec.Gen.Consts", "Fpdec.Model.Decimal"],
                  "KDecRound": ["Fpdec.Gen.KDivRounded", "Fpdec.Model.Decimal"],
                  "KFloat": ["Fpdec.Gen.KNorm", "Fpdec.Gen.Consts", "Fpdec.Model.Core", "Fpdec.Model.Decimal"], "KRem": ["Fpdec.Gen.KPow"], "KDecRem": ["Fpdec.Gen.KRem", "Fpdec.Model.Decimal"],
                  "KWideDiv": ["Fpdec.Gen.KWide", "Fpdec.Gen.KPow", "Fpdec.Gen.Consts", "Fpdec.Model.Core"]}
@@ -1473,6 +1506,11 @@ KERNELS = [
     ("KDecDiv", "src/binops/div_rounded.rs", "checked_div_rounded", None),
     ("KDecMul", "src/binops/mul_rounded.rs", "checked_mul_rounded", None),
     ("KNorm", "src/lib.rs", "normalize", None),
+    ("KIntConv", "src/from_int.rs", "from", "Decimal", {"as": "decimal_from_int", "macro": ("impl_from_int", 1, 0, {"$t": "i64"})}),
+    ("KIntConv", "src/from_int.rs", "try_from", "Decimal", {"as": "decimal_try_from_u128"}),
+    ("KIntConv", "src/into_int.rs", "try_from", "i128", {"as": "i128_try_from_decimal", "err": "TryFromDecimalError"}),
+    ("KIntConv", "src/into_int.rs", "try_from", "i64",
+     {"as": "i64_try_from_decimal", "err": "TryFromDecimalError", "macro": ("impl_int_from_dec", 1, 0, {"$t": "i64"})}),
     ("KCmp", "src/binops/cmp.rs", "eq", "Decimal", {"as": "decimal_eq", "macro": ("impl_partial_eq", 0, 0, None)}),
     ("KCmp", "src/binops/cmp.rs", "partial_cmp", "Decimal", {"as": "decimal_partial_cmp", "macro": ("impl_partial_ord", 0, 0, None)}),
     ("KAddSub", "src/binops/add_sub.rs", "coeff_or_panic", None),
@@ -1553,6 +1591,9 @@ ARRAYS = {"POWERS_OF_10": ("i128", "Gen.POWERS_OF_10"), "IDX_MAP": ("u8", "Gen.M
 TM_NEEDED = {}
 
 
+ERR_TYPE = ["DecimalError"]      # what `Self::Error` stands for in the function being parsed
+
+
 def translate(repo):
     """returns {group: lean text}"""
     repo = Path(repo)
@@ -1562,7 +1603,7 @@ def translate(repo):
         if t == "Self":
             return selfty
         if t == "Error":
-            return "DecimalError"
+            return ERR_TYPE[0]
         if t == "Output":
             return selfty
         if isinstance(t, tuple) and t[0] == "tuple":
@@ -1589,6 +1630,7 @@ def translate(repo):
                                                                     macro_arms(re.sub(r"//[^\n]*", "", srcs[f]), mname)[1])).items()
                          if k_ == fname] [0] if fname.startswith("$") else fname
             params, ret, body = parse_fn(text, fname, opts.get("occ", 0), name)
+            ERR_TYPE[0] = opts.get("err", "DecimalError")
             params = [(n, sub(t, selfty)) for n, t in params]
             ret = opts["ret"] if "ret" in opts else sub(ret, selfty)
             parsed[name] = (params, ret, body, selfty)
